@@ -306,7 +306,8 @@ def r12c(run):
             continue
         total += 1
         tests = [m for m in fa.cfg.nodes if m.kind == "test" and "exponent" in unparse(m.ast)
-                 and any(unparse(a) == "self.no_data_loss" and p for a, p in fa.facts.atoms_at(m))]
+                 and (any(unparse(a) == "self.no_data_loss" and p for a, p in fa.facts.atoms_at(m))
+                      or any(unparse(a) == "self.no_data_loss" and p for a, p in decompose(m.ast, True)))]
         ok = bool(tests) and all(any(x.kind == "stmt" and isinstance(x.ast, ast.Raise)
                                      for s, k in m.succ if s.kind == "branch" and s.polarity
                                      for x in fa.cfg.reach_from_succ(s, kinds=(N,)) | {s}) for m in tests)
